@@ -116,7 +116,7 @@ func checkSettingsWriters(c *Ctx, r *Report, rule string, onlyPkgs []string) {
 		}
 		k := 0
 		allInstrs(fn, func(in ssa.Instruction) {
-			f, _, _, ok := fieldStore(in)
+			f, base, _, ok := fieldStore(in)
 			if !ok {
 				return
 			}
@@ -127,6 +127,31 @@ func checkSettingsWriters(c *Ctx, r *Report, rule string, onlyPkgs []string) {
 			n++
 			k++
 			construct := fmt.Sprintf("%s writes %s#%d", shortFn(fn), f.Name(), k)
+			if _, fresh := base.(*ssa.Alloc); fresh {
+				r.OK(rule, construct, c.Pos(in.Pos()), "initialises an object allocated in this very function")
+				return
+			}
+			if call, isCall := base.(*ssa.Extract); isCall {
+				base = call.Tuple
+			}
+			if call, isCall := base.(*ssa.Call); isCall {
+				if h := call.Call.StaticCallee(); h != nil && strings.HasPrefix(h.Name(), "New") && guardedBy(in, func(cv ssa.Value, truth bool) bool {
+					cmp, isCmp := cv.(*ssa.BinOp)
+					if !isCmp || cmp.Op != token.EQL || !truth {
+						return false
+					}
+					for _, side := range [][2]ssa.Value{{cmp.X, cmp.Y}, {cmp.Y, cmp.X}} {
+						ff, _, isLoad := fieldLoad(side[0])
+						if _, isConst := side[1].(*ssa.Const); isLoad && ff == f && isConst {
+							return true
+						}
+					}
+					return false
+				}) {
+					r.OK(rule, construct, c.Pos(in.Pos()), "fills a default into this call's own options object where the caller left the setting at its zero value")
+					return
+				}
+			}
 			allowed := false
 			for _, q := range settingsOwnedAtRunTime[f.Name()] {
 				if strings.HasSuffix(p, "/"+q) {
